@@ -353,7 +353,7 @@ def check_case(case, stats=None):
         if ev['act_before_resume'] and case['timeout'] is None:
             viol.append({'kind': 'action-started-before-resume',
                          'detail': {}})
-    for e in common.undeclared_errors(_Res()):
+    for e in common.undeclared_errors(_Res(), server=True):
         viol.append({'kind': 'undeclared-error',
                      'detail': {k: e.get(k) for k in
                                 ('type', 'msg', 'frame', 'where', 'label')}})
@@ -361,6 +361,11 @@ def check_case(case, stats=None):
 
 
 class _Res(object):
+    @property
+    def server_errors(self):
+        from mv import sim
+        return sim.W.server_errors
+
     @property
     def errors(self):
         from mv import sim
